@@ -509,7 +509,7 @@ func runC20(c *Ctx) {
 		}
 	}
 	restCheck(c)
-	c.Rep.Rule = "all 12 typed packages: the same seeded scenario (objects of the package's type created, changed, deleted; objects of ANOTHER type injected on the watch) run on a typed controller (BuildController) and on an untyped kcache controller side by side against one fake API server in virtual time: typed cache / filtered-subscription cache / subscription events / filtered-subscription events / monitor callbacks = the untyped ones restricted to the type (foreign objects skipped, never nil, same order), Get, readiness, Close; the typed cache vs the extracted typed_list; per package an initially empty collection (typed monitor callbacks = untyped ones, OnInitialize with nothing included) and a burst of 250 events nobody reads (typed subscription delivers what the untyped one delivers; Events() closed after Close). Per package the rest of the typed API as a tree next to the same untyped tree (Clone, CloneWithFilter, CloneForFilter, SubscribeForFilter, Refilter on each, a unitary handler through ToUnitary, typed Ready/Close/Done): readiness, caches, event sequences and callbacks equal the untyped twin restricted to the type at every barrier; a closed typed node is done, nothing above it stops, calls on stopped typed nodes fail. Source level: harness/cmd/gentokens tokenizes template and generated files and the Coq kernel checks instantiate(template) = generated for the 12 packages and executed-join-template = generated join for the 8 joins (20 per-run obligations). List failures (error, context.Canceled, 504, not a list) at the relist of a typed controller next to an untyped one: both stop, Error() agrees on nil-ness and cause, typed subscriptions end (3 packages per seed in the quick tier, all in the thorough tier). REST: every typed NewController(ctx, log, clientset, ns) against a loopback HTTP API server (ready after the empty first list, lists and watches its own resource from the list's version, done after Close), and every typed NewClient against the same server, with and without namespace: path and query of list and watch. Non-trivial = every (package, scenario)."
+	c.Rep.Rule = "all 12 typed packages: the same seeded scenario (objects of the package's type created, changed, deleted; objects of ANOTHER type injected on the watch) run on a typed controller (BuildController) and on an untyped kcache controller side by side against one fake API server in virtual time: typed cache / filtered-subscription cache / subscription events / filtered-subscription events / monitor callbacks = the untyped ones restricted to the type (foreign objects skipped, never nil, same order), Get, readiness, Close; the typed cache vs the extracted typed_list; per package an initially empty collection (typed monitor callbacks = untyped ones, OnInitialize with nothing included) and a burst of 250 events nobody reads (typed subscription delivers what the untyped one delivers; Events() closed after Close). Per package the rest of the typed API as a tree next to the same untyped tree (Clone, CloneWithFilter, CloneForFilter, SubscribeForFilter, Refilter on each, a unitary handler through ToUnitary, typed Ready/Close/Done): readiness, caches, event sequences and callbacks equal the untyped twin restricted to the type at every barrier; a closed typed node is done, nothing above it stops, calls on stopped typed nodes fail. Source level: harness/cmd/gentokens tokenizes template and generated files and the Coq kernel checks instantiate(template) = generated for the 12 packages and executed-join-template = generated join for the 8 joins (20 per-run obligations). List failures (error, context.Canceled, 504, not a list) at the relist of a typed controller next to an untyped one: both stop, Error() agrees on nil-ness and cause, typed subscriptions end (3 packages per seed in the quick tier, all in the thorough tier). REST: every typed NewController(ctx, log, clientset, ns) against a loopback HTTP API server (ready after the empty first list, lists and watches its own resource from the list's version, done after Close), and every typed NewClient against the same server, with and without namespace: path and query of list and watch. Non-trivial = every (package, scenario). The loopback server keeps the watch open: four changes (ADDED, MODIFIED, ADDED, DELETED of the package's kind, JSON with kind and apiVersion) reported on the stream reach the typed cache of every NewController (default refresh period: nothing but the watch can bring them). List failures also at the FIRST list (nothing ever ready), each with a typed for-filter subscription that is never given a filter: typed Events() close, nothing outlives the controller."
 	c.Rep.Stats["runs"] = runs
 }
 
